@@ -31,7 +31,9 @@ EXTERNAL_RAISES = {
     "urllib.request.urlunparse": [],
     "socket.inet_pton": ["builtins.OSError"],
     "locale.setlocale": ["locale.Error"],
-    "builtins.__import__": ["builtins.ImportError"],
+    # ImportError for a name that cannot be imported; ValueError for the
+    # empty name ("Empty module name")
+    "builtins.__import__": ["builtins.ImportError", "builtins.ValueError"],
 }
 # external classes and their bases (for handler subsumption)
 EXTERNAL_BASES = {
@@ -339,6 +341,10 @@ class ExcFlow:
                 self._from_callee(out, ident, call.lineno, c.ambiguous)
             elif c.kind == "external":
                 for cls in self.external.get(c.name, ()):
+                    if c.name == "builtins.__import__" \
+                            and cls == "builtins.ValueError" \
+                            and self._nonempty_import_name(fi, call):
+                        continue
                     out[(cls, self._loc(call) + " " + c.name, ())] = {
                         "via": None, "amb": c.ambiguous, "external": c.name}
             elif c.kind == "slot":
@@ -445,6 +451,48 @@ class ExcFlow:
                                     % (src(t), self._loc(h)))
             out.append(EXTERNAL_ALIASES.get(r, r))
         return out
+
+    def _nonempty_import_name(self, fi, call):
+        """__import__(x) raises ValueError only for the empty name.  True when
+        an earlier statement of the function raises on `'' in x.split('.')`
+        (or on `not x`), so that the name reaching the call is not empty."""
+        if not call.args:
+            return False
+        arg = src(call.args[0])
+        p = call
+        before = []
+        while p is not None and p is not fi.node:
+            par = getattr(p, "_parent", None)
+            if par is None:
+                break
+            for fld in ("body", "orelse", "finalbody"):
+                blk = getattr(par, fld, None)
+                if isinstance(blk, list) and p in blk:
+                    before.extend(blk[:blk.index(p)])
+            p = par
+        splits = {arg}
+        for st in before:
+            if isinstance(st, ast.Assign) and isinstance(
+                    st.value, ast.Call) and isinstance(
+                    st.value.func, ast.Attribute) and st.value.func.attr \
+                    == "split" and src(st.value.func.value) == arg:
+                for t in st.targets:
+                    splits.add(src(t))
+        for st in before:
+            if not (isinstance(st, ast.If) and any(
+                    isinstance(x, ast.Raise) for x in st.body)):
+                continue
+            t = st.test
+            if isinstance(t, ast.Compare) and len(t.ops) == 1 and isinstance(
+                    t.ops[0], ast.In) and isinstance(t.left, ast.Constant) \
+                    and t.left.value == "" and (
+                        src(t.comparators[0]) in splits
+                        or src(t.comparators[0]).startswith(arg + ".split(")):
+                return True
+            if isinstance(t, ast.UnaryOp) and isinstance(t.op, ast.Not) \
+                    and src(t.operand) == arg:
+                return True
+        return False
 
     def _patched_by_callee(self, call, excname, depth, fi=None):
         """Attributes of the caught exception assigned by a helper that the
